@@ -18,6 +18,7 @@ EXPLANATION = (
     "branches yield/return; lexical containment finds any yield inside a `with <lock>` region "
     "in any generator of the package. Decides the iteration protocol for every response "
     "sequence; does not decide what the peer sends or timing."
+    " Fourth session: (checkpoint) the reactor is not resumed from the finalisation of a generator; (response-seen) borrowed from C03's ready-probe."
 )
 
 GENS = ("_wrap_find_responses", "_wrap_get_move_responses")
